@@ -38,6 +38,10 @@ def final_model(sc):
                 src, n = sc.data_patch[mi]
                 items = [L.Item("atom", id="raw%d" % mi, kind="d", target=None, length=n, rope=Rope.src(src, n), blk=bid,
                                 code=False, orig=False, patch=mi, func=None, expr=None, annots=[])]
+            elif md["patch"] == "decline":
+                # a patch that returns no assembly: nothing is inserted and nothing is replaced
+                eng.check(not by_patch.get(id(sc.mod_patches[mi])), "a declining patch produced an assembler result")
+                continue
             else:
                 results = by_patch.get(id(sc.mod_patches[mi]), [])
                 eng.check(len(results) == 1, "patch of modification %d was assembled %d times, expected once" % (mi, len(results)))
@@ -295,13 +299,20 @@ def expected_entry_positions(sc, ls, fname):
             continue
         items, _ = ls.positions(ls.block_section[bid])
         start = min(i for i, (it, _) in enumerate(items) if getattr(it, "blk", None) == bid)
+        order = [b["id"] for s in sc.spec["sections"] if s["name"] == ls.block_section[bid] for b in s["blocks"]]
+        nxt_bid = order[order.index(bid) + 1] if order.index(bid) + 1 < len(order) else None
         for it, pos in items[start:]:
             if it.t == "atom" and it.blk == bid:
                 must.append(pos)  # the block survives (own atom or patch inserted into it)
                 break
             if it.t == "atom":
                 if it.code and it.func == fname:
-                    may.append(pos)
+                    # the entry block is gone; when the block that physically followed it is code of the same function
+                    # and still there, it must have been promoted
+                    if it.blk == nxt_bid and sc.bspec[nxt_bid]["kind"] == "code" and not sc.bspec[nxt_bid].get("gap"):
+                        must.append(pos)
+                    else:
+                        may.append(pos)
                 break
             if it.t == "gap":
                 break
@@ -744,6 +755,13 @@ def h_rewrite_fault(eng, spec, fault_at):
     raise core.Abort()  # fewer patch invocations than fault_at
 
 
+def h_rewrite_closed_only(eng, spec):
+    sc = srh.Scenario(eng, spec)
+    sc.register()
+    sc.apply()
+    check_closed(sc, None)
+
+
 PROP_CHECKS["C05"] = [check_bytes, check_closed]
 
 
@@ -764,6 +782,20 @@ def make_check_C05(tier):
                     allow_no_pass=True)
     for sid, spec in rewrite_shapes.cfi_shapes(tier):
         chk.add(sid, h_rewrite, params=dict(spec=spec, props=["C05"]), timeout=900)
+    # closedness only (no position oracle): labels that slid onto a block which is then deleted with retarget_to_proxy
+    import copy as _c
+    dele = rewrite_shapes.dele
+    for mods in ([dele("b0", 0, 2), dele("b1", 0, 3, proxy=True)], [dele("b0", 0, 2), dele("b1", 0, 3, proxy=True), dele("b2", 0, 2, proxy=True)]):
+        spec = rewrite_shapes.nolabel_layout()
+        spec["mods"] = _c.deepcopy(mods)
+        chk.add("closed-only/nolabel/%s" % rewrite_shapes.mods_name(mods), h_rewrite_closed_only, params=dict(spec=spec), timeout=900)
+    for mods in ([dele("b1", 0, 2), dele("b2", 0, 2, proxy=True)], [dele("b0", 0, 2), dele("b1", 0, 2), dele("b2", 0, 2, proxy=True)]):
+        spec = rewrite_shapes.mixed_layout()
+        spec["sections"][0]["blocks"][2]["syms"] = []
+        spec["sections"][0]["blocks"][0]["atoms"] = ["o", "o"]
+        spec["annots"] = [a for a in spec["annots"] if a.get("sym") != "s2"]
+        spec["mods"] = _c.deepcopy(mods)
+        chk.add("closed-only/mixed/%s" % rewrite_shapes.mods_name(mods), h_rewrite_closed_only, params=dict(spec=spec), timeout=900)
     chk.bounds["fault injection"] = "an exception raised from the k-th Patch.get_asm callback, every k up to the number of patches"
     chk.bounds["serialisation"] = "witness-level: the protobuf save/load round trip runs in the concrete replays only (protobuf is FFI)"
     return chk
